@@ -12,6 +12,7 @@
 #include "modular.h"
 #include "modular-balanced.h"
 #include "modular-log16.h"
+#include "modular-extended.h"
 #include "montgomery.h"
 #include "gfq.h"
 #include "gfqext.h"
@@ -37,6 +38,12 @@ namespace Givaro {
     template class Modular<uint64_t>;
     template class Modular<float>;
     template class Modular<double>;
+    template class Modular<int8_t>;
+    template class Modular<uint8_t>;
+    template class Modular<int16_t>;
+    template class Modular<uint16_t>;
+    template class ModularExtended<double>;
+    template class ModularExtended<float>;
     template class Modular<Integer>;
     template class Modular<RecInt::ruint<7> >;
     template class Extension<GFqDom<int64_t> >;
@@ -67,6 +74,13 @@ void c16_uses() {
     { Modular<int32_t> a(7); c16_mutators(a); } { Modular<uint32_t> a(7); c16_mutators(a); } { Modular<int64_t> a(7); c16_mutators(a); }
     { Modular<uint64_t> a(7); c16_mutators(a); } { Modular<float> a(7); c16_mutators(a); } { Modular<double> a(7); c16_mutators(a); }
     { Modular<Integer> a(7); c16_mutators(a); } { Modular<Log16> a(7); c16_mutators(a); } { GFqDom<int64_t> a(3, 2); c16_mutators(a); }
+    { Modular<int8_t> a(7); c16_mutators(a); } { Modular<uint8_t> a(7); c16_mutators(a); } { Modular<int16_t> a(7); c16_mutators(a); } { Modular<uint16_t> a(7); c16_mutators(a); }
+    { Modular<int8_t> a(7), b(11); c16_special(a, b); int8_t r = 0; c16_ring_ops(a, r, r, r); }
+    { Modular<uint8_t> a(7), b(11); c16_special(a, b); uint8_t r = 0; c16_ring_ops(a, r, r, r); }
+    { Modular<int16_t> a(7), b(11); c16_special(a, b); int16_t r = 0; c16_ring_ops(a, r, r, r); }
+    { Modular<uint16_t> a(7), b(11); c16_special(a, b); uint16_t r = 0; c16_ring_ops(a, r, r, r); }
+    { ModularExtended<double> a(7), b(11); c16_special(a, b); double r = 0; c16_ring_ops(a, r, r, r); }
+    { ModularExtended<float> a(7), b(11); c16_special(a, b); float r = 0; c16_ring_ops(a, r, r, r); }
     { Modular<int32_t> a(7), b(11); c16_special(a, b); int32_t r = 0; c16_ring_ops(a, r, r, r); }
     { Modular<uint32_t> a(7), b(11); c16_special(a, b); uint32_t r = 0; c16_ring_ops(a, r, r, r); }
     { Modular<int64_t> a(7), b(11); c16_special(a, b); int64_t r = 0; c16_ring_ops(a, r, r, r); }
@@ -115,4 +129,31 @@ void c16_uses() {
       a.div(r, s, t); a.axpy(r, s, t, s); a.isZero(r); a.areEqual(r, s); a.write(std::cout, r); }
     { typedef StaticElement<Modular<double> > S; S::setDomain(Modular<double>(7)); S x(3), y(4), z; z = x; z = x + y; z = x * y; z = x - y; z = x / y;
       z += x; z -= x; z *= x; z /= y; (void)(x == y); x.isZero(); double d = (double)x; (void)d; S w(x); (void)w; }
+}
+
+// every constructor overload of every class: the constructors are analysed like the operations (a function-local static or a
+// mutable global they touch is hidden cross-object state).  Overloads that do not compile (GFqExtFast(const GFqDom&) and
+// GFqExt(const GFqDom&) read members GFqDom does not have) stay uninstantiated: the translator still scans their template
+// patterns for function-local statics and lists them as not analysed.
+template<class M> void c16_ctors_modular() { M a; M b((typename M::Residu_t)7); M c(Integer(7)); M d(7.0); M e((int64_t)7); M f((uint64_t)7); (void)a; }
+void c16_ctor_uses() {
+    c16_ctors_modular<Modular<int32_t> >(); c16_ctors_modular<Modular<uint32_t> >(); c16_ctors_modular<Modular<int64_t> >(); c16_ctors_modular<Modular<uint64_t> >();
+    c16_ctors_modular<Modular<float> >(); c16_ctors_modular<Modular<double> >();
+    c16_ctors_modular<Modular<int8_t> >(); c16_ctors_modular<Modular<uint8_t> >(); c16_ctors_modular<Modular<int16_t> >(); c16_ctors_modular<Modular<uint16_t> >();
+    { ModularExtended<double> a; ModularExtended<double> b(7.0); ModularExtended<double> c((uint64_t)7); ModularExtended<double> d(Integer(7)); ModularExtended<float> e; ModularExtended<float> f(7.0f); ModularExtended<float> g((uint64_t)7); (void)a; (void)e; }
+    { Modular<Integer> a; Modular<Integer> b(Integer(7)); Modular<Integer> c((int64_t)7); Modular<Integer> d((uint64_t)7); (void)a; }
+    { Modular<RecInt::ruint<7> > a; Modular<RecInt::ruint<7> > b(RecInt::ruint<7>(7)); Modular<RecInt::ruint<7> > c(Integer(7)); (void)a; }
+    { ModularBalanced<int32_t> a; ModularBalanced<int64_t> b; ModularBalanced<float> c; ModularBalanced<double> d; Montgomery<int32_t> e; Montgomery<int32_t> f(7, 1); Montgomery<RecInt::ruint<7> > g; Modular<Log16> h; (void)a; }
+    { std::vector<int32_t> v(3, 1); std::vector<int64_t> vl(3, 1); std::vector<int> w(3, 1); std::deque<long> q(3, 1);
+      GFqDom<int32_t> a; GFqDom<int32_t> c(3, 2, v); GFqDom<int32_t> d(3, 2, v, v); GFqDom<int32_t> g(3, 2, q); GFqDom<int32_t> h(3, 2, q, q);
+      GFqDom<int64_t> e(3, 2, w, w); GFqDom<int64_t> f(3, 2, q); GFqDom<int64_t> i(3, 2, w); GFqDom<int64_t> j(3, 2, q, q); GFqDom<int64_t> k;
+      GFqExtFast<int64_t> l; GFqExtFast<int64_t> m(3, 2, vl); GFqExtFast<int64_t> n(3, 2, q); GFqExt<int64_t> o; (void)a; }
+    { Extension<GFqDom<int64_t> > a; Extension<GFqDom<int64_t> > b((uint64_t)3, (uint64_t)8, Indeter("Y")); GFqDom<int64_t> F(3, 1); Extension<GFqDom<int64_t> > c(F, 2, Indeter("Y"));
+      Poly1Dom<GFqDom<int64_t>, Dense> PD(F, "Y"); Poly1Dom<GFqDom<int64_t>, Dense>::Element P; Extension<GFqDom<int64_t> > d(PD, P); (void)a; }
+    { Modular<double> F(7); Extension<Modular<double> > a; Poly1Dom<Modular<double>, Dense> PD(F, "Y"); Poly1Dom<Modular<double>, Dense>::Element P; Extension<Modular<double> > d(PD, P); (void)a; }
+    { Modular<double> F(7); Poly1Dom<Modular<double>, Dense> a; Poly1Dom<Modular<double>, Dense> a2(F, "X"); Poly1FactorDom<Modular<double>, Dense> b; Poly1FactorDom<Modular<double>, Dense> c(a2, GivRandom());
+      GFqDom<int64_t> G(3, 2); Poly1Dom<GFqDom<int64_t>, Dense> e; Poly1Dom<GFqDom<int64_t>, Dense> e2(G, "X"); Poly1FactorDom<GFqDom<int64_t>, Dense> f; Poly1FactorDom<GFqDom<int64_t>, Dense> g(e2, GivRandom()); (void)a; (void)e; }
+    { GFqDom<int64_t> F(3, 1); Poly1PadicDom<GFqDom<int64_t>, Dense> a(F, "X"); Poly1Dom<GFqDom<int64_t>, Dense> PD(F, "X"); IntegerDom Z; Poly1PadicDom<GFqDom<int64_t>, Dense> b(PD, Z); }
+    { std::vector<int64_t> p(3, 7); IntRNSsystem<std::vector, std::allocator> a(p); IntRNSsystem<std::vector, std::allocator> b; RNSsystem<Integer, Modular<double> > c; (void)b; }
+    { QField<Rational> a(5); }
 }
